@@ -22,10 +22,19 @@ def zlist(bs):
 
 
 def why_class(why):
-    """Stable class of a Go-side difference message (digits and quoted text removed)."""
-    w = re.sub(r'"[^"]*"', '""', why or "")
+    """Stable class of a Go-side difference message (positions, literals and tree text removed)."""
+    w = why or ""
+    if w.startswith("tree: at"):
+        return "tree-differs"
+    if w.startswith("Span start"):
+        return "span-start"
+    m = re.match(r"token \d+: want \((\w+)[^)]*\)?.*? got \((\w+)", w)
+    if m:
+        return "token want %s got %s" % (m.group(1), m.group(2))
+    w = re.sub(r'"[^"]*"', '""', w)
+    w = re.sub(r"'[^']*'", "''", w)
     w = re.sub(r"\d+", "N", w)
-    return w[:80]
+    return w[:70]
 
 
 def end_depth(lines):
